@@ -22,6 +22,11 @@ REPLAY = os.path.join(OUT, "replay")
 GUARD = "QLASSKIT_VERIF"
 
 
+def is_ret(name):
+    """names of return bits: _ret, _ret.0, _ret.1.0 ... (a variable of the program may be called _retry)"""
+    return name == "_ret" or name.startswith("_ret.")
+
+
 def use_repo():
     """Import the library from the tree under test (current working tree, hooks on)."""
     os.environ[GUARD] = "1"
